@@ -6,6 +6,7 @@ import (
 	"fmt"
 	"strings"
 	"testing"
+	"time"
 
 	proto4 "go.sia.tech/core/rhp/v4"
 	"go.sia.tech/core/types"
@@ -154,8 +155,13 @@ func (r *replayer) listable(ad *Adapter, all bool, salt int) (problems []string)
 
 func (r *replayer) runPath(pi int, path []edge) {
 	var ad *Adapter
-	rpc := ""
+	rpcs := map[int]string{}
+	freed := false
 	fail := func(si int, e edge, field, desc string) {
+		rpc := rpcs[e.Act.S]
+		if freed && (field == "roots" || field == "rootsmatch") {
+			rpc = "free" // only a free can have touched the roots without a commit
+		}
 		sig := fmt.Sprintf("replay:%s:%s:%s", rpc, e.Act.Op, field)
 		r.res.Mismatch(sig, fmt.Sprintf("path %d step %d %s: %s", pi, si, hx.JSON(e.Act), desc),
 			map[string]any{"kind": "path", "family": r.in.Family, "allowance": r.in.Allowance, "collateral": r.in.Collateral, "stub": r.in.Stub, "path": path[:si+1]})
@@ -176,10 +182,15 @@ func (r *replayer) runPath(pi int, path []edge) {
 			r.t.Fatalf("path %d does not start with Setup", pi)
 		}
 		if x := rpcOf(e.Act); x != "" {
-			rpc = x
+			rpcs[e.Act.S] = x
+			freed = freed || x == "free"
 		}
 		r.res.Eval(r.in.Family + "|" + hx.JSON(e.Act) + "|" + hx.JSON(e.To.Roots) + hx.JSON(e.To.Rev.Num))
+		t0 := time.Now()
 		out, err := ad.Step(e.Act)
+		if d := time.Since(t0); d > 100*time.Millisecond {
+			r.res.Note("slow step %v: path %d step %d %s", d, pi, si, hx.JSON(e.Act))
+		}
 		if err != nil {
 			r.t.Fatalf("path %d step %d %s: harness error: %v", pi, si, hx.JSON(e.Act), err)
 		}
